@@ -26,6 +26,7 @@ from mc.runner import Run, Stats, HarnessError
 from mc import world as W
 
 from clematis.engine.cache import CacheManager, LRUCache, ThreadSafeCache
+import clematis.engine.orchestrator as orch_pkg
 from clematis.engine.orchestrator import core as orch_core
 from clematis.engine.stages import t1 as t1_mod
 from clematis.engine.stages.t2 import cache as t2c_mod
@@ -39,7 +40,7 @@ TURNS = [("T", a, x) for a in ("A", "B") for x in ("apple", "pear fig")]
 EDITS = [("RELABEL",), ("EDGE_W",), ("EDGE_DST",), ("EDGE_NEW",), ("EP", "A"), ("EP", "B")]
 CFGS = [("CFG", "k1"), ("CFG", "thr"), ("CFG", "rank"), ("CFG", "owner"), ("CFG", "days"), ("CFG", "radius"),
         ("CFG", "tiers"), ("CFG", "tiers_rev")]
-MISC = [("KILL",), ("CLK",), ("DAY",), ("SWITCH",)]
+MISC = [("KILL",), ("CLK",), ("DAY",), ("HALFDAY",), ("SWITCH",), ("SCHED",)]
 OPS = TURNS + EDITS + CFGS + MISC
 
 CFG_CHANGES = {
@@ -52,6 +53,10 @@ CFG_CHANGES = {
     "tiers": {"t2": {"tiers": ["archive"]}},
     "tiers_rev": {"t2": {"tiers": ["archive", "cluster_semantic", "exact_semantic"]}},
 }
+
+# scheduler slice with a tight layer budget (time budgets out of reach): every seeded turn yields at the T1 boundary,
+# its T1 result is still observed; toggled on/off by the SCHED operation
+SCHED_ON = {"scheduler": {"enabled": True, "quantum_ms": 10 ** 9, "budgets": {"wall_ms": 10 ** 9, "t1_iters": 1, "t2_k": 64, "t3_ops": 8}}}
 
 CACHE_CONFIGS = {
     # name -> (config with caches on, which layers exist)
@@ -153,16 +158,26 @@ def execute(history, cache_cfg, caches_on, scratch, extra_off=None):
         s["_boot_loaded"] = True
     cur = 0
     kill = False
-    day = 0
+    sched = False
+    day = 0.0
     obs = []
     captured = {}
     real_mpb = orch_core.make_plan_bundle
+    had_t1 = "t1_propagate" in vars(orch_pkg)
+    old_t1 = vars(orch_pkg).get("t1_propagate")
+    real_t1 = t1_mod.t1_propagate
 
     def spy(ctx, state, t1, t2):
         captured["t1"], captured["t2"] = t1, t2
         return real_mpb(ctx, state, t1, t2)
 
+    def spy_t1(ctx, state, text):
+        r = real_t1(ctx, state, text)
+        captured["t1"] = r
+        return r
+
     orch_core.make_plan_bundle = spy
+    orch_pkg.t1_propagate = spy_t1
     try:
         # inject clocks where the configuration builds TTL caches
         c0 = cfg_for(base, ex.snap_dir)
@@ -194,16 +209,19 @@ def execute(history, cache_cfg, caches_on, scratch, extra_off=None):
                 over = W.deep_merge(base, dyn)
                 if kill:
                     over = W.deep_merge(over, {"t4": {"enabled": False}})
+                if sched:
+                    over = W.deep_merge(over, SCHED_ON)
                 cfg = cfg_for(over, ex.snap_dir)
                 now = W._ts(-day)
                 ctx = W.make_ctx(cfg, op[1], turn, now=now)
                 captured.clear()
                 res = orch_core.run_turn(ctx, st, op[2])
                 if "t1" not in captured:
-                    raise HarnessError("make_plan_bundle seam not reached")
-                o = {"t1": _t1_obs(captured["t1"]), "t2": _t2_obs(captured["t2"]), "line": res.line}
+                    raise HarnessError("t1 seam not reached")
+                # a turn that yields at the T1 boundary never computes T2: observed as None in both twin runs
+                o = {"t1": _t1_obs(captured["t1"]), "t2": (_t2_obs(captured["t2"]) if "t2" in captured else None), "line": res.line}
                 # owner-scope invariant (independent of the twin run)
-                if str(cfg.get("t2", {}).get("owner_scope", "any")) == "agent":
+                if o["t2"] is not None and str(cfg.get("t2", {}).get("owner_scope", "any")) == "agent":
                     owners = {str(e["id"]): e.get("owner") for e in st["mem_index"]._eps}
                     o["leak"] = sorted(i for i, _ in o["t2"]["items"] if owners.get(i) != op[1])
                 obs.append(o)
@@ -232,6 +250,10 @@ def execute(history, cache_cfg, caches_on, scratch, extra_off=None):
                 fake.t += 601.0
             elif kind == "DAY":
                 day += 40
+            elif kind == "HALFDAY":
+                day += 0.5 if (day % 1.0) == 0.0 else -0.5
+            elif kind == "SCHED":
+                sched = not sched
             elif kind == "SWITCH":
                 cur = 1 - cur
             else:
@@ -239,6 +261,13 @@ def execute(history, cache_cfg, caches_on, scratch, extra_off=None):
         return obs
     finally:
         orch_core.make_plan_bundle = real_mpb
+        if had_t1:
+            orch_pkg.t1_propagate = old_t1
+        else:
+            try:
+                delattr(orch_pkg, "t1_propagate")
+            except Exception:
+                pass
         ex.close()
 
 
@@ -320,10 +349,12 @@ def _worker(chunk, st: Stats, scratch):
         st.add("validated", nt)
         st.add("histories")
         st.distinct("states", (cache_cfg, W.jd(on[-1]["t1"]), W.jd(on[-1]["t2"])))
+        if on[-1]["t2"] is None:
+            st.add("turns_yielded_at_t1")
         if nt >= 2:
             st.add("nontrivial")
         if d is None and not leak:
-            st.distinct("outcomes", ("ok", cache_cfg, W.jd(on[-1]["t2"]["items"])))
+            st.distinct("outcomes", ("ok", cache_cfg, W.jd((on[-1]["t2"] or {}).get("items"))))
             continue
         st.add("failing_histories")
         if not is_minimal(history, cache_cfg, scratch):
